@@ -74,7 +74,7 @@ def run_streams(ctx, wm, streams, budget, rng):
         ends.append(acc)
       cutsets = [[], ends[:-1]] + [[e for e in ends[:-1] if rng.random() < 0.5] for _ in range(2)]
     else:
-      cutsets = wiresys.all_cuts(n, rng, budget)
+      cutsets = wiresys.all_cuts(n, rng, budget, wiresys.priority_cuts(frames))
     seen = set()
     for cuts in cutsets:
       if tuple(cuts) in seen:
